@@ -444,6 +444,21 @@ def caller_supplied_field(f, text):
     return 1 <= root <= f.argc
 
 
+def protected_record_field(prog):
+    """name of Protected's field holding Option<storage record> (found by type, not by name)"""
+    from .c14 import record_info
+    if getattr(prog, "_c04_recfld", None) is None:
+        rec = record_info(prog)
+        nm = "?"
+        adt = prog.adts.get("protected::Protected")
+        if rec and adt:
+            for fd in adt["variants"][0]["fields"]:
+                if rec["short"] in fd["ty"]["t"]:
+                    nm = fd["name"]
+        prog._c04_recfld = nm
+    return prog._c04_recfld
+
+
 def peel_unwrap_target(e):
     """strip as_ref/as_mut/clone adapters around the unwrapped Option/Result expression"""
     d = 0
@@ -565,15 +580,17 @@ class Discharger:
                 base = x.a
                 while base is not None and base.k == "field":
                     base = base.a
-                if base is not None and base.k == "call" and base.a.path == "std::ops::Try::branch":
-                    inner = call_arg_exprs(base.a)[0]
+                if base is not None and base.k == "call":
+                    # `helper(..)?` (through Try::branch) or `match helper(..) { Ok(v) => v, .. }`
+                    inner = call_arg_exprs(base.a)[0] if base.a.path == "std::ops::Try::branch" else base
                     if inner.k == "call":
                         tg = prog.callee_fns(inner.a)
                         if tg and all(fld in ok_postcondition_some(prog, g, self.post_memo) for g in tg):
                             return ("ok", "Ok-postcondition of %s: `%s` is Some on every Ok return" % (tg[0].name, fld))
-                if fld == "i" and "protected::Protected" in f.path or (fld == "i" and "Protected" in f.locals[1]["t"] if f.argc else False):
+                rec_fld = protected_record_field(prog)
+                if fld == rec_fld and "protected::Protected" in f.path or (fld == rec_fld and "Protected" in f.locals[1]["t"] if f.argc else False):
                     self.stats["invariant"] += 1
-                    return ("assumed", "container invariant: Protected.i is Some for every value safe code can hold")
+                    return ("assumed", "container invariant: Protected's storage record is Some for every value safe code can hold")
             # (c) try_from(slice).unwrap() into a fixed array
             if x is not None and x.k == "call" and x.a.path in ("std::convert::TryFrom::try_from", "std::convert::TryInto::try_into"):
                 n = None
@@ -600,15 +617,13 @@ class Discharger:
                 self.stats["environment"] += 1
                 return ("assumed", "lock/protect refusal (environment), decided by C19")
             # Protected invariant: `None => panic!("invalid array")`
-            if any(fld == "i" for e, fld in some_edges(f).items()) or "match on self.i" in s.text:
-                pass
             for b in f.dom.get(s.bb, ()):
                 t = f.blocks[b]["t"]
                 if t["k"] == "switch":
                     e = expr_of_operand(f, t["x"])
-                    if e.k == "discr" and e.a.k == "field" and e.a.b.split(".")[-1] == "i":
+                    if e.k == "discr" and e.a.k == "field" and e.a.b.split(".")[-1] == protected_record_field(prog):
                         self.stats["invariant"] += 1
-                        return ("assumed", "container invariant: Protected.i is Some (panic in the None arm)")
+                        return ("assumed", "container invariant: Protected's storage record is Some (panic in the None arm)")
             if len(pf) >= 1 and f.key not in self.entries:
                 # precondition: not all of the facts leading to the panic
                 if len(pf) == 1 and pf[0][1] == ">=":
